@@ -8,7 +8,7 @@
    (same history with and without its restarts: same delivered stream, same final counts). *)
 From W Require Import gen.Consts model.Base model.Engine model.EngineCfg spec.Queue
   proofs.EngineWF proofs.EngineInv proofs.EngineW proofs.EngineMain proofs.EngineRec proofs.EngineDisk proofs.EnginePos proofs.EngineP3
-  proofs.EngineNorm proofs.EngineRestart proofs.EngineReopen proofs.EngineC06 props.C01.
+  proofs.EngineNorm proofs.EngineRestart proofs.EngineReopen proofs.EngineC06 proofs.AloAccP proofs.EngineGen proofs.EngineGenR props.C01.
 From Coq Require Import Lia.
 
 (* restarts anywhere in an admissible history; StrictlyAtOnce: the trace with the restart
@@ -109,6 +109,36 @@ Theorem c06_restart_preserves_cursor : forall (c : Cfg) (be : backend) (ops : li
     cnt (get_ts (reopen c s) t) = cnt (get_ts s t) /\
     cnt (get_ts (reopen c s) t) = N.of_nat (length (unread c (nrm x (get_ts (reopen c s) t)))).
 Proof. exact restart_preserves_cursor. Qed.
+
+(* ANY consistency mode (AtLeastOnce{n} in particular; StrictlyAtOnce too): every history of appends,
+   batches, read_next, batch reads, counts and ANY NUMBER of restarts outside block-id drift is accepted
+   by the extracted AtLeastOnce acceptor c06alo_ok (spec/Queue.v): no entry is lost, nothing is
+   reordered; after a restart a suffix of what was already delivered may be delivered again.
+   Behind it (proofs/EngineGen.v, EngineGenR.v, AloAccP.v): the invariant GM of raw states with a
+   ledger whose l_del is the consumer's true position; every non-restart step satisfies the
+   exactly-once step condition w.r.t. that ledger; a restart moves positions BACK to the persisted
+   ones, never forward (GM_reopen, RB); such ledger runs are accepted (alo_accepts). *)
+Theorem c06_alo_outside_known : forall (c : Cfg) (m : mode) (be : backend) (ops : list op),
+  cfg_ok c -> Forall (op_ok_r c) ops ->
+  N.of_nat (length (offered_all ops)) <= u64_max -> sum_len (offered_all ops) <= u64_max ->
+  outside_known (env_of c m be) init ops = true ->
+  c06alo_ok (trace (env_of c m be) init ops) = true.
+Proof. intros c m be ops Hc _ HB HBb Ho. exact (restart_alo_from_init c m be ops Hc Ho HB HBb). Qed.
+
+(* non-vacuity: AtLeastOnce{3}, two restarts, entries delivered again after each (e 3; then e 3 and e 4,
+   by a batch read): accepted by c06alo_ok, rejected by the exactly-once acceptor c01_ok *)
+Example c06_alo_witness :
+  let ops := [OAppend t1 (e 0 10); OAppend t1 (e 1 10); OAppend t1 (e 2 10); OAppend t1 (e 3 10); OAppend t1 (e 4 10);
+              ORead t1 true; ORead t1 true; ORead t1 true; ORead t1 true; OReopen; ORead t1 true; ORead t1 true;
+              OReopen; OBatchRead t1 100000 true None; OAppend t1 (e 5 10); ORead t1 true; ORead t1 true] in
+  outside_known (env_of small_cfg (ALO 3) Fd) init ops = true /\
+  map snd (trace (env_of small_cfg (ALO 3) Fd) init ops)
+  = [ROk; ROk; ROk; ROk; ROk; REntry (out_of (e 0 10)); REntry (out_of (e 1 10)); REntry (out_of (e 2 10));
+     REntry (out_of (e 3 10)); ROk; REntry (out_of (e 3 10)); REntry (out_of (e 4 10)); ROk;
+     REntries [out_of (e 3 10); out_of (e 4 10)]; ROk; REntry (out_of (e 5 10)); RNone] /\
+  c06alo_ok (trace (env_of small_cfg (ALO 3) Fd) init ops) = true /\
+  c01_ok (trace (env_of small_cfg (ALO 3) Fd) init ops) = false.
+Proof. vm_compute. repeat split; reflexivity. Qed.
 
 (* C06_full itself is FALSE for the model (and the code): block-id drift *)
 Definition t4 : topic := {| t_id := 4; t_nlen := 2 |}.
@@ -213,3 +243,9 @@ Print Assumptions c06_restart_preserves_cursor.
 Check c06_full_refuted : ~ C06_full.
 Print Assumptions c06_full_refuted.
 Print Assumptions c06_refuted_id_drift.
+Check c06_alo_outside_known : forall (c : Cfg) (m : mode) (be : backend) (ops : list op),
+  cfg_ok c -> Forall (op_ok_r c) ops ->
+  N.of_nat (length (offered_all ops)) <= u64_max -> sum_len (offered_all ops) <= u64_max ->
+  outside_known (env_of c m be) init ops = true ->
+  c06alo_ok (trace (env_of c m be) init ops) = true.
+Print Assumptions c06_alo_outside_known.
